@@ -203,6 +203,16 @@ def run_sign(case):
                 raise Violation("verify", f"genuine signed message rejected with keyring form {fname}: {type(e).__name__}: {e}", "genuine:" + fname)
             if not p.had_tsig or p.mac != f.mac or p.keyname != key.name:
                 raise Violation("verify", "validated message lost its TSIG attributes", "attrs")
+            # the receiver may parse under an origin (zone transfers do): the key is the same key
+            # whether or not its name lies at or below that origin
+            for oname, org in (("key-name", key.name), ("key-parent", key.name.parent() if len(key.name) > 1 else None), ("root", dns.name.root)):
+                if org is None or case["msg"].get("origin") is not None:
+                    continue
+                try:
+                    _validate(w, kr, now, origin=org)
+                except dns.exception.DNSException as e:
+                    raise Violation("verify", f"genuine signed message rejected with keyring form {fname} when parsed with origin {org} ({oname}): {type(e).__name__}: {e}", f"genuine-under-origin:{fname}")
+                classes.append("validated-under-origin:" + oname)
         # window edges
         _validate(w, key, now + case["fudge"])
         _validate(w, key, now - case["fudge"]) if now - case["fudge"] >= 0 else None
@@ -557,7 +567,7 @@ def multi_cases(draw):
 def parts(tier):
     req_alg = {"alg:%d" % i: 10 for i in range(9)}
     req = dict(req_alg)
-    req.update({"signed-truncated": 15, "response": 200, "peer-error": 50, "window-edges": 200, "time>2^32": 30, "tsig-moved": 100, "re-signed-later": 300})
+    req.update({"signed-truncated": 15, "response": 200, "peer-error": 50, "window-edges": 200, "time>2^32": 30, "tsig-moved": 100, "re-signed-later": 300, "validated-under-origin:key-parent": 300})
     return [
         Part("sign", run_sign, strategy=sign_cases(), n={"quick": 1200, "thorough": 60000}, require=req,
              shards={"quick": 8, "thorough": 16}),
